@@ -31,6 +31,62 @@ import (
 
 const mhSchema = `type Users { name: String age: Int points: Int @crdt(type: pcounter) }`
 
+// the same collection with secondary indexes (VERIF_MERGE_INDEXED=1): merges must keep them in step (C07)
+const mhSchemaIndexed = `type Users { name: String @index age: Int @index points: Int @crdt(type: pcounter) }`
+
+func mhActiveSchema() string {
+	if os.Getenv("VERIF_MERGE_INDEXED") == "1" {
+		return mhSchemaIndexed
+	}
+	return mhSchema
+}
+
+// mhIndexProblems: on a replica with indexes, what a filter on an indexed field returns (served from the
+// index) must be what the full listing contains for that value
+func mhIndexProblems(ctx context.Context, r *replica) []string {
+	var ps []string
+	q := func(s string) ([]map[string]any, error) {
+		var rows []map[string]any
+		var err error
+		func() {
+			defer func() {
+				if rec := recover(); rec != nil {
+					err = fmt.Errorf("PANIC: %v", rec)
+				}
+			}()
+			res := r.db.ExecRequest(ctx, s)
+			if len(res.GQL.Errors) > 0 {
+				err = res.GQL.Errors[0]
+				return
+			}
+			m, _ := res.GQL.Data.(map[string]any)
+			rows, _ = m["Users"].([]map[string]any)
+		}()
+		return rows, err
+	}
+	all, err := q(`query { Users { _docID name points } }`)
+	if err != nil {
+		return []string{fmt.Sprintf("C07: %s listing failed: %v", r.name, err)}
+	}
+	for _, v := range []string{`"x"`, `"y"`, `"a"`, `null`} {
+		got, err := q(fmt.Sprintf(`query { Users(filter: {name: {_eq: %s}}) { _docID name points } }`, v))
+		if err != nil {
+			ps = append(ps, fmt.Sprintf("C07: %s: name == %s through the index failed: %v", r.name, v, err))
+			continue
+		}
+		want := 0
+		for _, row := range all {
+			if (v == "null" && row["name"] == nil) || (v != "null" && fmt.Sprintf("%q", row["name"]) == v) {
+				want++
+			}
+		}
+		if len(got) != want {
+			ps = append(ps, fmt.Sprintf("C07: %s: name == %s: %d rows through the index, %d in the listing %v", r.name, v, len(got), want, all))
+		}
+	}
+	return ps
+}
+
 type replica struct {
 	name  string
 	db    *DB
@@ -425,7 +481,7 @@ func runHistory(t *testing.T, ctx context.Context, k int, hist []bOp) (res bResu
 	reps := make([]*replica, k)
 	var docID string
 	for i := range reps {
-		reps[i] = newReplica(t, ctx, fmt.Sprintf("r%d", i), mhSchema)
+		reps[i] = newReplica(t, ctx, fmt.Sprintf("r%d", i), mhActiveSchema())
 		id, err := reps[i].create(ctx, `{"name":"a","age":1,"points":10}`)
 		if err != nil {
 			t.Fatal(err)
@@ -544,6 +600,9 @@ func runHistory(t *testing.T, ctx context.Context, k int, hist []bOp) (res bResu
 		}
 		for _, p := range dagProblems(ctx, r, docID) {
 			res.Problems = append(res.Problems, fmt.Sprintf("C04: r%d %s", i, p))
+		}
+		if os.Getenv("VERIF_MERGE_INDEXED") == "1" {
+			res.Problems = append(res.Problems, mhIndexProblems(ctx, r)...)
 		}
 	}
 	return res
